@@ -263,7 +263,41 @@ def word_passed_whole(ck, F, prefix):
         try:
             outs = S.run(f['id'])
         except Unsupported:
-            continue                # not a route this rule can follow; the factories are covered by the contract rules
+            # outside the evaluator (a trimming loop, say): judged on the syntax tree -- a copy of the word parameter that is edited
+            # (remove_prefix / remove_suffix / assignment) and then handed to an interning route
+            from facts import walk, strip_casts, local_init
+            names = {p['name'] for i, p in enumerate(f['params']) if i in wp}
+            copies = {}
+            for m in walk(f['body']):
+                if m.get('k') == 'decl':
+                    for v in m.get('vars', []):
+                        i0 = v.get('init')
+                        while isinstance(i0, dict) and (i0.get('k') in ('cast', 'paren') or (i0.get('k') == 'ctor' and len(i0.get('args', [])) == 1)):
+                            i0 = i0.get('e') if 'e' in i0 else i0['args'][0]
+                        if isinstance(i0, dict) and i0.get('k') == 'ref' and i0.get('kind') == 'parm' and i0.get('name') in names:
+                            copies[(v['id'], v['name'])] = v
+            edited = set()
+            for m in walk(f['body']):
+                if m.get('k') == 'call' and (m.get('callee') or {}).get('name') in VIEW_MUTATORS and m.get('obj') is not None:
+                    o = strip_casts(m['obj'])
+                    if o.get('k') == 'ref' and ((o.get('id'), o.get('name')) in copies or (o.get('kind') == 'parm' and o.get('name') in names)):
+                        edited.add(o.get('name'))
+            bad2 = []
+            for m in walk(f['body']):
+                if m.get('k') == 'call' and (m.get('callee') or {}).get('name') in ('intern', 'get_string', 'get_identifier', 'get_logogram', 'get_operator') \
+                        and (m.get('callee') or {}).get('repo'):
+                    for a in m.get('args') or []:
+                        a0 = a
+                        while isinstance(a0, dict) and (a0.get('k') in ('cast', 'paren') or (a0.get('k') == 'ctor' and len(a0.get('args', [])) == 1)):
+                            a0 = a0.get('e') if 'e' in a0 else a0['args'][0]
+                        if isinstance(a0, dict) and a0.get('k') == 'ref' and a0.get('name') in edited:
+                            bad2.append(f'hands `{a0.get("name")}`, an edited copy of the word (line {m.get("ln")}), to {(m["callee"] or {}).get("name")}')
+            if edited or bad2:
+                n += 1
+                ck.check(R, contracts.short(contracts.fn_qname(f['id'])) + '(' + ', '.join(contracts.short(p['t']) for p in f['params']) + ')', not bad2,
+                         f'{f["id"]}: ' + '; '.join(sorted(set(bad2))[:2]) + ' -- a node is looked up or made for other bytes than the client gave',
+                         loc=f['loc'], fn=f['id'])
+            continue
         bad, reached = [], False
         for st, k, v in outs:
             calls = [e for e in st.effects if e[0] == 'call' and e[1] == iid]
@@ -290,3 +324,4 @@ def word_passed_whole(ck, F, prefix):
                      f'{f["id"]}: ' + '; '.join(sorted(set(bad))[:2]) + ' -- the node no longer spells the bytes the client gave', loc=f['loc'], fn=f['id'])
     if n == 0:
         raise AnalysisBroken('no function with a word parameter reaches the interning function')
+    return any(v.get('rule') == f'{prefix}.word-passed-whole' for v in getattr(ck, 'violations', []))
